@@ -61,3 +61,54 @@ package xy
 //@   ensures [cross] !(line1Start[0] == line1End[0] && line1Start[1] == line1End[1]) && !(line2Start[0] == line2End[0] && line2Start[1] == line2End[1]) && ssCross(line1Start[0], line1Start[1], line1End[0], line1End[1], line2Start[0], line2Start[1], line2End[0], line2End[1]) ==> res == 0.0
 //@   ensures [min4] !(line1Start[0] == line1End[0] && line1Start[1] == line1End[1]) && !(line2Start[0] == line2End[0] && line2Start[1] == line2End[1]) && !ssCross(line1Start[0], line1Start[1], line1End[0], line1End[1], line2Start[0], line2Start[1], line2End[0], line2End[1]) ==> res * res == ssMin4(line1Start[0], line1Start[1], line1End[0], line1End[1], line2Start[0], line2Start[1], line2End[0], line2End[1])
 //@   modifies nothing
+
+// ---------------------------------------------------------------------------
+// C20: Douglas-Peucker over the reals. mask[i] == 1 marks point i as retained.
+
+//@ func distanceFromSegmentSquared
+//@   floats real
+//@   requires len(a) >= 2 && len(b) >= 2 && len(point) >= 2
+//@   ensures res == psd2(point[0], point[1], a[0], a[1], b[0], b[1])
+//@   modifies nothing
+
+// the explicit stack holds a chain of pending index pairs (s0,e0),(s1,e1),... with e_j == s_{j+1}, strictly
+// increasing, all marked, with no mark strictly inside a pending pair; everything to the right of the top
+// pair's end is finished: between two consecutive marks every point is within the threshold of their segment
+//@ func dpWorker
+//@   floats real
+//@   lemmas mulCancel, mulCancel2, mulNonneg
+//@   requires stride >= 2 && len(mask) >= 3 && len(ls) == mul(len(mask), stride) && len(ls) == len(mask) * stride && threshold >= 0.0
+//@   requires mask[0] == 1 && mask[len(mask)-1] == 1 && forall i int :: 0 < i && i < len(mask)-1 ==> mask[i] == 0
+//@   ensures [kept] mask[0] == 1 && mask[len(mask)-1] == 1
+//@   ensures [bits] forall i int :: 0 <= i && i < len(mask) ==> mask[i] == 0 || mask[i] == 1
+//@   ensures [within] forall u, v, i int :: {noMarks(cells(mask), off(mask), u, v), d2at(cells(ls), off(ls), stride, u, v, i)} 0 <= u && u < i && i < v && v < len(mask) && mask[u] == 1 && mask[v] == 1 && noMarks(cells(mask), off(mask), u, v) ==> d2at(cells(ls), off(ls), stride, u, v, i) <= threshold * threshold
+//@   modifies mask
+//@   at entry: assert len(ls) / stride == len(mask)
+//@   loop 1:
+//@     invariant [shape] l == len(stack) && l >= 0 && fresh(stack) && (forall j int :: 0 <= j && 2*j+1 < l ==> 0 <= stack[2*j] && stack[2*j] < stack[2*j+1] && stack[2*j+1] < len(mask)) && (forall j int :: 0 <= j && 2*j+2 < l ==> stack[2*j+1] == stack[2*j+2]) && (l > 0 ==> stack[0] == 0) && (exists h int :: l == 2*h)
+//@     invariant [marked] forall k int :: 0 <= k && k < l ==> mask[stack[k]] == 1
+//@     invariant [room] forall k int :: 0 <= k && k < l ==> 0 <= stack[k] * stride && stack[k] * stride + stride <= len(ls)
+//@     invariant [pending] forall j, w int :: 0 <= j && 2*j+1 < l && stack[2*j] < w && w < stack[2*j+1] ==> mask[w] == 0
+//@     invariant [bits] mask[0] == 1 && mask[len(mask)-1] == 1 && forall i int :: 0 <= i && i < len(mask) ==> mask[i] == 0 || mask[i] == 1
+//@     invariant [done] forall u, v, i int :: {noMarks(cells(mask), off(mask), u, v), d2at(cells(ls), off(ls), stride, u, v, i)} (l > 0 ? stack[l-1] : 0) <= u && u < i && i < v && v < len(mask) && mask[u] == 1 && mask[v] == 1 && noMarks(cells(mask), off(mask), u, v) ==> d2at(cells(ls), off(ls), stride, u, v, i) <= threshold * threshold
+//@   loop 2:
+//@     invariant start + 1 <= i && i <= end && maxDist >= 0.0 && start * stride >= 0 && i * stride <= end * stride && end * stride + stride <= len(ls) && i * stride > start * stride
+//@     invariant forall k int :: {d2at(cells(ls), off(ls), stride, start, end, k)} start < k && k < i ==> d2at(cells(ls), off(ls), stride, start, end, k) <= maxDist
+//@     invariant maxDist > 0.0 ==> start < maxIndex && maxIndex < i
+
+//@ func SimplifyFlatCoords
+//@   floats real
+//@   lemmas mulCancel, mulCancel2, mulNonneg
+//@   requires stride >= 2 && threshold >= 0.0 && whole(len(flatCoords), stride)
+//@   ensures [increasing] forall k int :: 0 < k && k < len(res) ==> res[k-1] < res[k]
+//@   ensures [range] forall k int :: 0 <= k && k < len(res) ==> 0 <= res[k] && res[k] < cnt(len(flatCoords), stride)
+//@   ensures [ends] cnt(len(flatCoords), stride) >= 1 ==> len(res) >= 1 && res[0] == 0 && res[len(res)-1] == cnt(len(flatCoords), stride) - 1
+//@   modifies nothing
+//@   loop 1:
+//@     invariant len(ret) == size && fresh(ret) && forall k int :: 0 <= k && k < idx ==> ret[k] == k
+//@   loop 2:
+//@     invariant fresh(indexMap) || cap(indexMap) == 0
+//@     invariant forall k int :: 0 < k && k < len(indexMap) ==> indexMap[k-1] < indexMap[k]
+//@     invariant forall k int :: 0 <= k && k < len(indexMap) ==> 0 <= indexMap[k] && indexMap[k] < idx
+//@     invariant idx > 0 ==> len(indexMap) >= 1 && indexMap[0] == 0
+//@     invariant idx == len(mask) ==> indexMap[len(indexMap)-1] == len(mask) - 1
